@@ -336,7 +336,7 @@ def _compare_rules(ck: Checker) -> None:
             return a.kind == "test" and lab == "F" and t in (f"{arg}.meta.isexec", f"{arg}.meta")
 
         starts = [d for lab, d in g.nodes[n.loops[-1]].succ if lab == "T"] if n.loops else [g.entry]
-        reached = g.reach(starts, skip_node=lambda x: x.id in chm, skip_edge=skip, include_start=True)
+        reached = g.reach(starts, skip_node=lambda x: x.id in chm, skip_edge=skip)
         bad = n.id in reached
         ck.require(bool(chm) and not bad, "C09.kinds", cmp_, n,
                    "every executable file queued for creation is also queued for chmod",
